@@ -404,4 +404,9 @@ def configs(tier):
            'ook.BER_analizer', 'ppm.BER_analizer', 'utils-dB-Q', 'ADC', 'ppm.DSP-soft', 'ppm.DSP-hard-threshold']
     for fn in fns:
         out.append((f'purity-{fn}', scen_purity, dict(fn=fn), {}))
+    # deterministic blocks give identical results whatever was called before: the filters (and through them PD, MZM(BW=), EDFA(BW=))
+    # must follow the sampling rate now in gv although the same (order, bandwidth) was designed under another rate earlier
+    from vf.props import C11 as _C11
+    for kind in ('LPF', 'BPF'):
+        out.append((f'history-{kind}-after-gv-reconfigured', _C11.scen_history, dict(kind=kind), {'validate': 1}))
     return out
